@@ -133,6 +133,36 @@ theorem rs_call_err (fuel : Nat) (env : Env) (v : Val) (rest : List Val) (j : Na
     simp [rsCall, «urcu_common_reader_state», block, exec, eval, evalArgs, execPrim, bind, Except.bind, asLoc, Env.setVar,
       bindParams, setDst, evalUn, Val.truthy, hi, hg, evalBin, h2, rsErrMsg]
 
+/-- `urcu_common_reader_state(gp, ctr, group)` on its own: ONE load of `*ctr` (relaxed), and the answer is L2's scan guard
+on the loaded word `(nest, ph) = decW w` against the phase `g` of the plain-read `gp->ctr`:
+INACTIVE (2) iff `nest = 0` (`uScan1Inactive`: `mnest j = 0`), ACTIVE_CURRENT (0) iff `0 < nest ∧ ph = g`
+(`uScan1Current`: `0 < mnest j ∧ mph j = gp`), ACTIVE_OLD (1) otherwise -/
+theorem reader_state_exec (fuel : Nat) (env : Env) (G C : Loc) (g : Bool) (w : Int) (rest : List Val)
+    (hgp : env.vars "gp" = some (.ptr G)) (hc : env.vars "ctr" = some (.ptr C))
+    (hp : env.priv (.field G "ctr") = some (.int (encGp g))) (hw : 0 ≤ w) :
+    ∃ out, exec fuel «urcu_common_reader_state» env (.int w :: rest) = .ok out ∧
+      out.events = [.ld C (.int w) 0] ∧ out.ctl = .ret (some (.int (cls g w))) ∧ out.inp = rest ∧
+      out.env.priv = env.priv := by
+  obtain ⟨n, rfl⟩ := Int.eq_ofNat_of_zero_le hw
+  by_cases h0 : n % 4294967296 = 0
+  · simp [«urcu_common_reader_state», block, exec, eval, evalArgs, execPrim, bind, Except.bind, asLoc, Env.setVar,
+      bindParams, setDst, evalUn, Val.truthy, hgp, hc, hp, band_mask, bxor_gp, band_phase, hw, cls, decW, h0]
+  · have h0' : ¬ ((n:Int) % 4294967296 = 0) := by omega
+    by_cases h1 : n.testBit 32 = g <;>
+    simp [«urcu_common_reader_state», block, exec, eval, evalArgs, execPrim, bind, Except.bind, asLoc, Env.setVar,
+        bindParams, setDst, evalUn, Val.truthy, hgp, hc, hp, band_mask, bxor_gp, band_phase, hw, cls, decW, h0, h0', h1]
+
+theorem reader_state_blocked (fuel : Nat) (env : Env) (C : Loc) (hc : env.vars "ctr" = some (.ptr C)) :
+    ∃ out, exec fuel «urcu_common_reader_state» env [] = .ok out ∧ out.events = [] ∧ out.ctl = .blocked := by
+  simp [«urcu_common_reader_state», block, exec, eval, evalArgs, execPrim, bind, Except.bind, asLoc, hc]
+
+theorem cls_inactive (g w) : cls g w = 2 ↔ (decW w).1 = 0 := by
+  unfold cls; split <;> (try split) <;> simp_all
+theorem cls_current (g w) : cls g w = 0 ↔ 0 < (decW w).1 ∧ (decW w).2 = g := by
+  unfold cls; split <;> (try split) <;> simp_all <;> omega
+theorem cls_old (g w) : cls g w = 1 ↔ 0 < (decW w).1 ∧ (decW w).2 ≠ g := by
+  unfold cls; split <;> (try split) <;> simp_all <;> omega
+
 /-! ## the switch -/
 
 theorem switch_old (n : Nat) (env : Env) (inp : List Val) (h4 : env.vars "_t4" = some (.int 1)) :
@@ -232,8 +262,41 @@ theorem scanRest_holds (trk : Bool) (n : Nat) (c : Ctx) (env : Env) (inp : List 
       obtain ⟨w, rfl, hw⟩ := this
       rw [rs_call_cons (n+1) _ w rest2 k c.gv c.g (by simp [hi]) (by simp [hg]) (by simpa using hp) hw] at ho
       exec_simp_at ho []
-      trace_state
-      sorry
+      obtain ⟨⟨upc, gp, reg, inpl, snap, qs⟩, pend⟩ := ss
+      simp only at hupc hgp hpend hk hr hil
+      subst hpend
+      simp only [gpCtr] at hp
+      have hw' : ¬ (w < 0) := by omega
+      by_cases h0 : (decW w).1 = 0
+      · -- INACTIVE
+        have hc2 : cls c.g w = 2 := by simp [cls, h0]
+        rw [switch_move n _ rest2 (cls c.g w) k c.csv (Or.inr hc2) (by simp) (by simp [hi]) (by simp [hcs]) hcsv
+          (by simp [hq])] at ho
+        rcases hpass with ⟨hu, hh, hc⟩ | ⟨hu, hh, hc⟩ <;> cases rest2 <;> simp [hc2] at ho <;> subst ho <;>
+          simp [inputOf, hupc, hu] at hk hr ⊢ <;>
+          abs_simp [hw', hupc, hu, h0, hk, ScanPost, ScanInv, IterInv, hc, hh, hin, hcs, hq, hg, hwl, hp, hm, Pass, hgp, h2, inputOf,
+            curOK_rm _ _ _ hr] <;>
+          (try (have := curOK_rm _ _ _ hr; simpa [curOK, mem_rm] using this))
+      · by_cases h1 : (decW w).2 = c.g
+        · -- ACTIVE_CURRENT
+          have hc0 : cls c.g w = 0 := by simp [cls, h0, h1]
+          have h0' : 0 < (decW w).1 := by omega
+          rw [switch_move n _ rest2 (cls c.g w) k c.csv (Or.inl hc0) (by simp) (by simp [hi]) (by simp [hcs]) hcsv
+            (by simp [hq])] at ho
+          rcases hpass with ⟨hu, hh, hc⟩ | ⟨hu, hh, hc⟩ <;> cases rest2 <;> simp [hc0, hc] at ho <;> subst ho <;>
+            simp [inputOf, hupc, hu] at hk hr ⊢ <;>
+            abs_simp [hw', hupc, hu, h0, h0', h1, hk, ScanPost, ScanInv, IterInv, hc, hh, hin, hcs, hq, hg, hwl, hp, hm, Pass, hgp,
+              h2, inputOf, curOK_rm _ _ _ hr] <;>
+            (try (have := curOK_rm _ _ _ hr; simpa [curOK, mem_rm] using this))
+        · -- ACTIVE_OLD
+          have hc1 : cls c.g w = 1 := by simp [cls, h0, h1]
+          rw [switch_old n _ rest2 (by simp [hc1])] at ho
+          simp at ho; subst ho
+          rcases hpass with ⟨hu, hh, hc⟩ | ⟨hu, hh, hc⟩ <;>
+            simp [inputOf, hupc, hu] at hk hr ⊢ <;>
+            abs_simp [hw', hupc, hu, h0, h1, hk, ScanPost, ScanInv, IterInv, hc, hh, hin, hcs, hq, hg, hwl, hp, hm, Pass, hgp,
+              h2, inputOf] <;>
+            (try (have := curOK_weaken _ _ _ hr; simpa [curOK, mem_rm] using this))
 
 set_option maxHeartbeats 1600000 in
 theorem scanBody_holds (trk : Bool) (n : Nat) (c : Ctx) (env : Env) (inp : List Val) (ss : SS) (wins : Wins)
@@ -277,5 +340,352 @@ theorem scanBody_holds (trk : Bool) (n : Nat) (c : Ctx) (env : Env) (inp : List 
             rw [hss]; exact this
           · simp [Ok_cons, absEv, absExt, hil, hpend, hr]
     | _ => simp [curOK] at hcur
+
+/-- the list iteration: from a valid cursor, every event is accepted and the loop ends with the retry-loop invariant -/
+def ScanLoopPost (c : Ctx) : Post := fun ctl env ss _ =>
+  match ctl with
+  | .normal => IterInv c env ss
+  | .blocked | .fuel => True
+  | _ => False
+
+theorem scanLoop_holds (trk : Bool) (n : Nat) (c : Ctx) (env : Env) (inp : List Val) (ss : SS) (wins : Wins)
+    (hI : ScanInv c env ss) : Holds trk (exec (n+1) (.loop scanBody) env inp) ss wins (ScanLoopPost c) := by
+  simp only [exec]
+  refine Holds.loop _ (fun e s _ => ScanInv c e s) (ScanPost c) (ScanLoopPost c)
+    (fun e i s w h => scanBody_holds trk n c e i s w h) ?_ ?_ ?_ ?_ ?_ (n+1) env inp ss wins hI
+  · intro e s w h; exact h
+  · intro e s w h; exact h.elim
+  · intro e s w h; exact h
+  · intro ctl e s w h1 h2 h3 h; cases ctl <;> simp_all [ScanPost, ScanLoopPost]
+  · intro e s w h; trivial
+
+/-! ## the callees (specifications; instances in `Src/SyncGp.lean`) -/
+
+/-- effect of a master barrier on the checker state: `uMbarRet` at pc `mbar1`, `uEnd` at pc `mbar2`, nothing elsewhere -/
+def MasterAfter (ss s : SS) : Prop :=
+  s.pend = ss.pend ∧
+    s.ls = (match ss.ls.upc with
+            | .mbar1 => { ss.ls with upc := .p1 }
+            | .mbar2 => { ss.ls with upc := .idle }
+            | _ => ss.ls)
+
+/-- `smp_mb_master()`: one master-barrier event (or a prefix of the call), no change of the environment -/
+def MasterSpec (trk : Bool) (master : Stmt) (MPre : (Loc → Option Val) → Prop) : Prop :=
+  ∀ fuel env inp ss wins, MPre env.priv →
+    Holds trk (exec fuel (.call none [] [] master) env inp) ss wins
+      (fun ctl e s w => (ctl = .normal ∧ e = env ∧ w = wins ∧ MasterAfter ss s) ∨ ctl = .blocked ∨ ctl = .fuel)
+
+/-- `wait_gp()` during a pass: silent events around ONE window (`mutex_unlock … mutex_lock` of `rcu_registry_lock`), no
+change of the environment; the lists may have been changed by the other threads -/
+def WaitGpSpec (trk : Bool) (waitgp : Stmt) (MPre : (Loc → Option Val) → Prop) : Prop :=
+  ∀ fuel env inp ss wins, MPre env.priv → (ss.ls.upc = .p1 ∨ ss.ls.upc = .p2) →
+    Holds trk (exec fuel (.call none [] [] waitgp) env inp) ss wins
+      (fun ctl e s w => (ctl = .normal ∧ e = env ∧ s.pend = ss.pend ∧ s.ls.upc = ss.ls.upc ∧ s.ls.gp = ss.ls.gp) ∨
+        ctl = .blocked ∨ ctl = .fuel)
+
+/-- the precondition of the master barrier does not depend on the words the updater itself stores -/
+def MStable (MPre : (Loc → Option Val) → Prop) : Prop :=
+  ∀ priv l v, (l = gpFutex ∨ l = gpCtr ∨ l = .field (.glob "&wait") "state") → MPre priv →
+    MPre (fun m => if m = l then some v else priv m)
+
+/-! ## the statements of one retry iteration -/
+
+def StepPost (c : Ctx) : Post := fun ctl env ss _ =>
+  match ctl with
+  | .normal => IterInv c env ss
+  | .blocked | .fuel => True
+  | _ => False
+
+theorem IterInv_pass {c : Ctx} {env ss} (h : IterInv c env ss) : ss.ls.upc = .p1 ∨ ss.ls.upc = .p2 := by
+  obtain ⟨_, _, _, _, _, _, _, hp, hu, _, _⟩ := h
+  rcases hp with ⟨h1, _, _⟩ | ⟨h1, _, _⟩ <;> simp [hu, h1]
+
+theorem IterInv_master {c : Ctx} {env ss s} (h : IterInv c env ss) (hm : MasterAfter ss s) : IterInv c env s := by
+  have hp := IterInv_pass h
+  obtain ⟨h1, h2, h3, h4, h5, h6, h7, h8, h9, h10, h11⟩ := h
+  obtain ⟨hm1, hm2⟩ := hm
+  have : s.ls = ss.ls := by rcases hp with hp | hp <;> simpa [hp] using hm2
+  exact ⟨h1, h2, h3, h4, h5, h6, h7, h8, by rw [this]; exact h9, by rw [this]; exact h10, by rw [hm1]; exact h11⟩
+
+theorem stA_holds (trk fuel qa) (c : Ctx) (env inp ss wins) (hI : IterInv c env ss) :
+    Holds trk (exec fuel (stA qa) env inp) ss wins (StepPost c) := by
+  intro out ho
+  obtain ⟨h1, h2, h3, h4, ⟨k, h5⟩, h6, h7, h8, h9, h10, h11⟩ := hI
+  by_cases hk : k < 100 <;> exec_simp_at ho [stA, h5, hk] <;> subst ho <;>
+    simp [Ok_nil_iff, StepPost, IterInv, *]
+
+theorem stDec_holds (trk fuel) (c : Ctx) (env inp ss wins) (hI : IterInv c env ss) :
+    Holds trk (exec fuel stDec env inp) ss wins (StepPost c) := by
+  intro out ho
+  have hI' := hI
+  obtain ⟨h1, h2, h3, h4, ⟨k, h5⟩, h6, h7, h8, h9, h10, h11⟩ := hI
+  cases inp <;> exec_simp_at ho [stDec] <;> subst ho
+  · simp [Ok_nil_iff, StepPost]
+  · abs_simp [StepPost]
+    have hss : ({ ls := ss.ls, pend := ss.pend } : SS) = ss := by cases ss; rfl
+    rw [hss]; exact hI'
+
+theorem exec_ifte (fuel : Nat) (cnd : Expr) (a b : Stmt) (env : Env) (inp : List Val) (v : Val)
+    (h : eval env cnd = .ok v) :
+    exec fuel (.ifte cnd a b) env inp = if v.truthy then exec fuel a env inp else exec fuel b env inp := by
+  simp [exec, h, bind, Except.bind]
+
+theorem eval_ge (env : Env) (qa : String) (k : Int) (h : env.vars "wait_loops" = some (.int k)) :
+    eval env (.bin .ge (.var "wait_loops") (.cst qa (100))) = .ok (boolV (k ≥ 100)) := by
+  simp [eval, h, bind, Except.bind, evalBin]
+
+theorem master_step (trk : Bool) (master : Stmt) (c : Ctx) (hM : MasterSpec trk master c.MPre) (fuel env inp ss wins)
+    (hI : IterInv c env ss) : Holds trk (exec fuel (.call none [] [] master) env inp) ss wins (StepPost c) := by
+  refine (hM fuel env inp ss wins hI.2.2.2.2.2.2.1).mono ?_
+  intro ctl e s w h
+  rcases h with ⟨rfl, rfl, rfl, hm⟩ | rfl | rfl
+  · exact IterInv_master hI hm
+  · trivial
+  · trivial
+
+theorem StepPost_nn (c : Ctx) (ctl e s w) (h1 : ctl ≠ .normal) (h : StepPost c ctl e s w) : StepPost c ctl e s w := h
+
+theorem stB_holds (trk fuel qa master) (c : Ctx) (hM : MasterSpec trk master c.MPre) (env inp ss wins)
+    (hI : IterInv c env ss) : Holds trk (exec fuel (stB qa master) env inp) ss wins (StepPost c) := by
+  obtain ⟨k, h5⟩ := hI.2.2.2.2.1
+  rw [stB, exec_ifte _ _ _ _ _ _ _ (eval_ge env qa k h5)]
+  by_cases hk : k ≥ 100
+  · simp [boolV, hk, Val.truthy]
+    exact Holds.seq (stDec_holds trk fuel c env inp ss wins hI)
+      (fun e i s w hq => master_step trk master c hM fuel e i s w hq) (fun ctl e s w _ h => h)
+  · simp [boolV, hk, Val.truthy]
+    intro out ho
+    simp only [exec, Except.ok.injEq] at ho; subst ho
+    simpa [Ok_nil_iff, StepPost] using hI
+
+theorem IterInv_setVar {c : Ctx} {env : Env} {ss : SS} (x : String) (v : Val) (h : IterInv c env ss)
+    (hx : x ≠ "input_readers" ∧ x ≠ "cur_snap_readers" ∧ x ≠ "qsreaders" ∧ x ≠ "group" ∧ x ≠ "wait_loops") :
+    IterInv c { vars := fun y => if y = x then some v else env.vars y, priv := env.priv } ss := by
+  obtain ⟨h1, h2, h3, h4, ⟨k, h5⟩, h6, h7, h8, h9, h10, h11⟩ := h
+  obtain ⟨x1, x2, x3, x4, x5⟩ := hx
+  refine ⟨?_, ?_, ?_, ?_, ⟨k, ?_⟩, h6, h7, h8, h9, h10, h11⟩ <;> simp only <;> rw [if_neg (Ne.symm ‹_›)] <;> assumption
+
+theorem IterInv_ss {c : Ctx} {env : Env} {ss ss' : SS} (h : IterInv c env ss) (h1 : ss'.ls.upc = ss.ls.upc)
+    (h2 : ss'.ls.gp = ss.ls.gp) (h3 : ss'.pend = ss.pend) : IterInv c env ss' := by
+  obtain ⟨a1, a2, a3, a4, a5, a6, a7, a8, a9, a10, a11⟩ := h
+  exact ⟨a1, a2, a3, a4, a5, a6, a7, a8, by rw [h1]; exact a9, by rw [h2]; exact a10, by rw [h3]; exact a11⟩
+
+theorem stFirst_holds (trk fuel) (c : Ctx) (env inp ss wins) (hI : IterInv c env ss) :
+    Holds trk (exec fuel stFirst env inp) ss wins
+      (fun ctl e s _ => match ctl with | .normal => ScanInv c e s | .blocked => True | _ => False) := by
+  intro out ho
+  have hil := inList_of_pass hI
+  have h1 := hI.1
+  have h11 := hI.2.2.2.2.2.2.2.2.2.2
+  obtain ⟨ls, pend⟩ := ss
+  simp only at h11 hil; subst h11
+  cases inp with
+  | nil => exec_simp_at ho [stFirst, h1]; subst ho; simp [Ok_nil_iff]
+  | cons r rest =>
+    exec_simp_at ho [stFirst, h1]; subst ho
+    have hI2 := IterInv_setVar "_t2" r hI (by decide)
+    by_cases hr : curOK (inputOf ls) none r = true
+    · simp only [Ok_cons, absEv, absExt]
+      simp [hil, hr, lrun, Ok_nil_iff, ScanInv, hI2]
+    · simp [Ok_cons, absEv, absExt, hil, hr]
+
+theorem stEmpty_holds (trk fuel) (c : Ctx) (env inp ss wins) (hI : IterInv c env ss) :
+    Holds trk (exec fuel stEmpty env inp) ss wins
+      (fun ctl e s _ => match ctl with
+        | .normal => IterInv c e s ∧ ∃ r, e.vars "_t5" = some r ∧ r.truthy = decide (inputOf s.ls = [])
+        | .blocked => True
+        | _ => False) := by
+  intro out ho
+  have hil := inList_of_pass hI
+  have hps := IterInv_pass hI
+  have h1 := hI.1
+  have h11 := hI.2.2.2.2.2.2.2.2.2.2
+  obtain ⟨ls, pend⟩ := ss
+  simp only at h11 hil hps; subst h11
+  have hnidle : ¬ (ls.upc = .idle ∧ c.hd = registry) := by rcases hps with h | h <;> simp [h]
+  cases inp with
+  | nil => exec_simp_at ho [stEmpty, h1]; subst ho; simp [Ok_nil_iff]
+  | cons r rest =>
+    exec_simp_at ho [stEmpty, h1]; subst ho
+    have hI2 := IterInv_setVar "_t5" r hI (by decide)
+    by_cases hr : r.truthy = decide (inputOf ls = [])
+    · simp only [Ok_cons, absEv, absExt]
+      simp [hil, hr, lrun, Ok_nil_iff, hnidle, hI2]
+    · simp [Ok_cons, absEv, absExt, hil, hr, hnidle]
+
+theorem stReset_holds (trk fuel) (c : Ctx) (hS : MStable c.MPre) (env inp ss wins) (hI : IterInv c env ss) :
+    Holds trk (exec fuel stReset env inp) ss wins (StepPost c) := by
+  intro out ho
+  obtain ⟨h1, h2, h3, h4, ⟨k, h5⟩, h6, h7, h8, h9, h10, h11⟩ := hI
+  obtain ⟨ls, pend⟩ := ss
+  exec_simp_at ho [stReset]; subst ho
+  have hI2 : IterInv c { vars := env.vars, priv := fun m => if m = gpFutex then some (.int 0) else env.priv m } ⟨ls, pend⟩ := by
+    refine ⟨h1, h2, h3, h4, ⟨k, h5⟩, ?_, ?_, h8, h9, h10, h11⟩
+    · simpa [gpCtr, gpFutex] using h6
+    · exact hS _ gpFutex _ (Or.inl rfl) h7
+  simp only [gpFutex] at hI2
+  abs_simp [StepPost]
+  exact hI2
+
+theorem stRelock_holds (trk fuel) (c : Ctx) (env inp ss wins) (hI : IterInv c env ss) :
+    Holds trk (exec fuel stRelock env inp) ss wins (StepPost c) := by
+  intro out ho
+  obtain ⟨ls, pend⟩ := ss
+  obtain ⟨ls', hl1, hl2, hl3⟩ := lrun_env (wins.head?.getD []) ls
+  have hI2 : IterInv c env ⟨ls', pend⟩ := IterInv_ss hI hl2 hl3 rfl
+  rcases inp with _ | ⟨r1, _ | ⟨r2, rest⟩⟩ <;> exec_simp_at ho [stRelock] <;> subst ho <;>
+    abs_simp [StepPost, hl1, hI, hI2]
+
+/-! ## one retry iteration and the whole `wait_for_readers` -/
+
+def StepPost2 (c : Ctx) (ls0 : LState) : Post := fun ctl env ss _ =>
+  match ctl with
+  | .normal => IterInv c env ss ∧ ss.ls = ls0
+  | .blocked | .fuel => True
+  | _ => False
+
+theorem master_step2 (trk : Bool) (master : Stmt) (c : Ctx) (hM : MasterSpec trk master c.MPre) (fuel env inp ss wins)
+    (hI : IterInv c env ss) : Holds trk (exec fuel (.call none [] [] master) env inp) ss wins (StepPost2 c ss.ls) := by
+  refine (hM fuel env inp ss wins hI.2.2.2.2.2.2.1).mono ?_
+  intro ctl e s w h
+  rcases h with ⟨rfl, rfl, rfl, hm⟩ | rfl | rfl
+  · refine ⟨IterInv_master hI hm, ?_⟩
+    rcases IterInv_pass hI with hp | hp <;> simpa [hp] using hm.2
+  · trivial
+  · trivial
+
+theorem stReset_holds2 (trk fuel) (c : Ctx) (hS : MStable c.MPre) (env inp ss wins) (hI : IterInv c env ss) :
+    Holds trk (exec fuel stReset env inp) ss wins (StepPost2 c ss.ls) := by
+  intro out ho
+  obtain ⟨h1, h2, h3, h4, ⟨k, h5⟩, h6, h7, h8, h9, h10, h11⟩ := hI
+  obtain ⟨ls, pend⟩ := ss
+  exec_simp_at ho [stReset]; subst ho
+  have hI2 : IterInv c { vars := env.vars, priv := fun m => if m = gpFutex then some (.int 0) else env.priv m } ⟨ls, pend⟩ := by
+    refine ⟨h1, h2, h3, h4, ⟨k, h5⟩, ?_, ?_, h8, h9, h10, h11⟩
+    · simpa [gpCtr, gpFutex] using h6
+    · exact hS _ gpFutex _ (Or.inl rfl) h7
+  simp only [gpFutex] at hI2
+  abs_simp [StepPost2]
+  exact hI2
+
+/-- postcondition of one retry iteration: `break` only with an empty input list -/
+def IterPost (c : Ctx) : Post := fun ctl env ss _ =>
+  match ctl with
+  | .normal => IterInv c env ss
+  | .brk => IterInv c env ss ∧ inputOf ss.ls = []
+  | .blocked | .fuel => True
+  | _ => False
+
+theorem eval_var (env : Env) (x : String) (v : Val) (h : env.vars x = some v) : eval env (.var x) = .ok v := by
+  simp [eval, h]
+
+theorem stTail_holds (trk fuel qa master waitgp) (c : Ctx) (hM : MasterSpec trk master c.MPre)
+    (hW : WaitGpSpec trk waitgp c.MPre) (hS : MStable c.MPre) (env inp ss wins) (hI : IterInv c env ss)
+    (r : Val) (h5 : env.vars "_t5" = some r) (hr : r.truthy = decide (inputOf ss.ls = [])) :
+    Holds trk (exec fuel (stTail qa master waitgp) env inp) ss wins (IterPost c) := by
+  obtain ⟨k, hk⟩ := hI.2.2.2.2.1
+  rw [stTail, exec_ifte _ _ _ _ _ _ _ (eval_var env "_t5" r h5)]
+  by_cases ht : r.truthy = true
+  · have hnil : inputOf ss.ls = [] := by simpa [ht] using hr
+    simp only [ht, if_true]
+    refine Holds.seq (Qa := StepPost2 c ss.ls) ?_ ?_ ?_
+    · rw [exec_ifte _ _ _ _ _ _ _ (eval_ge env qa k hk)]
+      by_cases hk100 : k ≥ 100
+      · simp [boolV, hk100, Val.truthy]
+        refine Holds.seq (master_step2 trk master c hM fuel env inp ss wins hI) ?_ (fun ctl e s w _ h => h)
+        intro e i s w hq
+        obtain ⟨hq1, hq2⟩ := hq
+        have := stReset_holds2 trk fuel c hS e i s w hq1
+        rw [hq2] at this; exact this
+      · simp [boolV, hk100, Val.truthy]
+        intro out ho
+        simp only [exec, Except.ok.injEq] at ho; subst ho
+        simpa [Ok_nil_iff, StepPost2] using hI
+    · intro e i s w hq out ho
+      simp only [block, exec, Except.ok.injEq] at ho; subst ho
+      obtain ⟨hq1, hq2⟩ := hq
+      simp only [Ok_nil_iff, IterPost]
+      exact ⟨hq1, by rw [hq2]; exact hnil⟩
+    · intro ctl e s w hn h
+      cases ctl <;> simp_all [StepPost2, IterPost]
+  · simp only [ht, if_false]
+    rw [exec_ifte _ _ _ _ _ _ _ (eval_ge env qa k hk)]
+    by_cases hk100 : k ≥ 100
+    · simp [boolV, hk100, Val.truthy]
+      refine (hW fuel env inp ss wins hI.2.2.2.2.2.2.1 (IterInv_pass hI)).mono ?_
+      intro ctl e s w h
+      rcases h with ⟨rfl, rfl, h1, h2, h3⟩ | rfl | rfl
+      · exact IterInv_ss hI h2 h3 h1
+      · trivial
+      · trivial
+    · simp [boolV, hk100, Val.truthy]
+      refine (stRelock_holds trk fuel c env inp ss wins hI).mono ?_
+      intro ctl e s w h
+      cases ctl <;> simp_all [StepPost, IterPost]
+
+theorem wfrBody_holds (trk n qa master waitgp) (c : Ctx) (hM : MasterSpec trk master c.MPre)
+    (hW : WaitGpSpec trk waitgp c.MPre) (hS : MStable c.MPre) (env inp ss wins) (hI : IterInv c env ss) :
+    Holds trk (exec (n+1) (wfrBody qa master waitgp) env inp) ss wins (IterPost c) := by
+  have hnn : ∀ ctl e s w, ctl ≠ .normal → StepPost c ctl e s w → IterPost c ctl e s w := by
+    intro ctl e s w hn h; cases ctl <;> simp_all [StepPost, IterPost]
+  refine Holds.seq (stA_holds trk (n+1) qa c env inp ss wins hI) ?_ hnn
+  intro e i s w hq
+  refine Holds.seq (stB_holds trk (n+1) qa master c hM e i s w hq) ?_ hnn
+  intro e i s w hq
+  refine Holds.seq (stFirst_holds trk (n+1) c e i s w hq) ?_ ?_
+  · intro e i s w hq
+    refine Holds.seq (scanLoop_holds trk n c e i s w hq) ?_ ?_
+    · intro e i s w hq
+      refine Holds.seq (stEmpty_holds trk (n+1) c e i s w hq) ?_ ?_
+      · intro e i s w hq
+        obtain ⟨hq1, r, hq2, hq3⟩ := hq
+        exact stTail_holds trk (n+1) qa master waitgp c hM hW hS e i s w hq1 r hq2 hq3
+      · intro ctl e s w hn h; cases ctl <;> simp_all [IterPost]
+    · intro ctl e s w hn h; cases ctl <;> simp_all [ScanLoopPost, IterPost]
+  · intro ctl e s w hn h; cases ctl <;> simp_all [IterPost]
+
+/-- what a completed `wait_for_readers` guarantees: the input list is empty (abstractly), the environment is as before
+except for `wait_loops`-like locals, the checker is at the same pc and phase -/
+def WfrPost (c : Ctx) : Post := fun ctl env ss _ =>
+  match ctl with
+  | .normal => IterInv c env ss ∧ inputOf ss.ls = []
+  | .blocked | .fuel => True
+  | _ => False
+
+/-- the hypotheses on a call of `wait_for_readers`: the parameters are bound as `Ctx` says -/
+def WfrPre (c : Ctx) (env : Env) (ss : SS) : Prop :=
+  env.vars "input_readers" = some (.ptr c.hd) ∧ env.vars "cur_snap_readers" = some c.csv ∧
+  env.vars "qsreaders" = some (.ptr qsr) ∧ env.vars "group" = some c.gv ∧
+  env.priv gpCtr = some (.int (encGp c.g)) ∧ c.MPre env.priv ∧
+  Pass c.upc c.hd c.csv ∧ ss.ls.upc = c.upc ∧ ss.ls.gp = c.g ∧ ss.pend = none
+
+theorem wfrT_holds (trk fuel qa master waitgp) (c : Ctx) (hM : MasterSpec trk master c.MPre)
+    (hW : WaitGpSpec trk waitgp c.MPre) (hS : MStable c.MPre) (env inp ss wins) (hP : WfrPre c env ss) :
+    Holds trk (exec fuel (wfrT qa master waitgp) env inp) ss wins (WfrPost c) := by
+  obtain ⟨h1, h2, h3, h4, h6, h7, h8, h9, h10, h11⟩ := hP
+  have hI : IterInv c (env.setVar "wait_loops" (.int 0)) ss :=
+    ⟨by simp [Env.setVar, h1], by simp [Env.setVar, h2], by simp [Env.setVar, h3], by simp [Env.setVar, h4],
+      ⟨0, by simp [Env.setVar]⟩, h6, h7, h8, h9, h10, h11⟩
+  refine Holds.seq (Qa := fun ctl e s w => ctl = .normal ∧ IterInv c e s) ?_ ?_ ?_
+  · intro out ho
+    exec_simp_at ho []; subst ho
+    simp only [Ok_nil_iff, true_and]
+    simpa [Env.setVar] using hI
+  · intro e i s w hq
+    cases fuel with
+    | zero =>
+      intro out ho
+      simp only [block, exec, iterate, Except.ok.injEq] at ho; subst ho
+      simp [Ok_nil_iff, WfrPost]
+    | succ n =>
+      simp only [block, exec]
+      refine Holds.loop _ (fun e s _ => IterInv c e s) (IterPost c) (WfrPost c)
+        (fun e i s w h => wfrBody_holds trk n qa master waitgp c hM hW hS e i s w h) ?_ ?_ ?_ ?_ ?_ (n+1) e i s w hq.2
+      · intro e s w h; exact h
+      · intro e s w h; exact h.elim
+      · intro e s w h; exact h
+      · intro ctl e s w h1 h2 h3 h; cases ctl <;> simp_all [IterPost, WfrPost]
+      · intro e s w h; trivial
+  · intro ctl e s w hn h; exact absurd h.1 hn
 
 end UrcuVerif.Src.Sync
